@@ -113,6 +113,23 @@ def run(chk, repo, tier):
             mult_vars = {n.targets[0].id for n in ast.walk(f.node) if isinstance(n, ast.Assign)
                          and isinstance(n.targets[0], ast.Name)
                          and ('_multiple' in unparse(n.value) or "subtree('n')" in unparse(n.value))}
+            # ... or a name unpacked from the result of a helper of the record that computes the multiplicity
+            # (`child, n = self._update_theta(child, parameters[i])`)
+            for a_ in ast.walk(f.node):
+                if isinstance(a_, ast.Assign) and isinstance(a_.targets[0], ast.Tuple) and isinstance(a_.value, ast.Call):
+                    cn = (dotted(a_.value.func) or '').split('.')[-1]
+                    h_ = cls.methods.get(cn) or mod.functions.get(cn)
+                    if h_ is not None and ('_multiple' in unparse(h_.node) or "subtree('n')" in unparse(h_.node)):
+                        for r_ in ast.walk(h_.node):
+                            if isinstance(r_, ast.Return) and isinstance(r_.value, ast.Tuple):
+                                for k_, e_ in enumerate(r_.value.elts):
+                                    if isinstance(e_, ast.Name) and k_ < len(a_.targets[0].elts) \
+                                            and isinstance(a_.targets[0].elts[k_], ast.Name) and any(
+                                            isinstance(d_, ast.Assign) and isinstance(d_.targets[0], ast.Name)
+                                            and d_.targets[0].id == e_.id and ('_multiple' in unparse(d_.value)
+                                                                                  or "subtree('n')" in unparse(d_.value))
+                                            for d_ in ast.walk(h_.node)):
+                                        mult_vars.add(a_.targets[0].elts[k_].id)
             idx_incs = [n for n in ast.walk(f.node) if isinstance(n, ast.AugAssign) and isinstance(n.op, ast.Add)
                         and isinstance(n.target, ast.Name) and n.target.id in ('i', 'ind', 'index', 'tot')]
             if not idx_incs:
